@@ -45,7 +45,7 @@ def floors(tier):
             "keyword_cells_both_outcomes": 100,   # of 107 (draft, keyword) cells
             "distinct_nontrivial": 10000,
             "calibration_cases": 2000, "consulting_pairs_enumerated": 500, "shape_pairs_enumerated": 2000,
-            "pattern_tables_enumerated": 3000}
+            "pattern_tables_enumerated": 3000, "compared_neutral_configurations": 50000}
 
 
 def classify(case, detail):
@@ -93,6 +93,42 @@ def compare(ctx, draft, schema, inst, gate=True, tag="rand"):
         ctx.violation("verdict", {"draft": draft, "schema": schema, "instance": inst},
                       "implementation says %s, model says %s (%s)" % (
                           "valid" if got else "invalid", "valid" if strict else "invalid", tag))
+        return
+    # the same verdict from a validator configured in the ways that do not change the meaning of the schema: the
+    # deprecated `types=` argument overriding a type with what it already is, an explicitly passed default resolver
+    n = ctx.counters.get("compared", 0)
+    if n % 5 == 0 or tag == "replay":
+        for how, mk in CONFIGS:
+            try:
+                got2 = mk(cls, schema).is_valid(inst)
+            except Exception as e:
+                ctx.violation("verdict-under-neutral-configuration", {"draft": draft, "schema": schema, "instance": inst, "configuration": how},
+                              "%s: %s" % (type(e).__name__, str(e)[:100]))
+                return
+            ctx.count("compared_neutral_configurations")
+            if got2 != strict:
+                ctx.violation("verdict-under-neutral-configuration", {"draft": draft, "schema": schema, "instance": inst, "configuration": how},
+                              "with %s the implementation says %s, model says %s" % (how, "valid" if got2 else "invalid", "valid" if strict else "invalid"))
+                return
+
+
+def _with_types(cls, schema):
+    return cls(schema, types={"array": list, "object": dict})
+
+
+def _with_resolver(cls, schema):
+    from jsonschema import RefResolver
+    return cls(schema, resolver=RefResolver.from_schema(schema, id_of=cls.ID_OF))
+
+
+def _with_format_checker_unused(cls, schema):
+    import jsonschema
+    return cls(schema, format_checker=jsonschema.FormatChecker(formats=()))
+
+
+CONFIGS = [("types={'array': list, 'object': dict} (what they already are)", _with_types),
+           ("an explicitly passed RefResolver.from_schema(schema)", _with_resolver),
+           ("a format checker that knows no format", _with_format_checker_unused)]
 
 
 def run(ctx):
